@@ -66,6 +66,11 @@ def cases(tier, seed):
                         yield {"kind": "sched", "n": n, "bs": bs, "ep": ep, "mi": mi, "stops": stops}
     for enc in range(7):
         yield {"kind": "predict", "enc": enc}
+        if ENCODINGS[enc][0] != "cont":
+            # histories other than one fit: a single partial_fit that names the classes in reverse order, and a fit on
+            # *other* labels followed by a fit on these (predict must follow the last training labels; seeded change C17d)
+            yield {"kind": "predict", "enc": enc, "hist": "partial_fit_reversed_classes"}
+            yield {"kind": "predict", "enc": enc, "hist": "fit_other_labels_then_fit"}
     for enc in range(3):
         yield {"kind": "predict_trained", "enc": enc}
 
@@ -242,12 +247,24 @@ def _run_predict(case):
             batch_size=-1, epochs=1, shuffle=False, random_state=0)
     out["evals"] += 1
     out["traces"] += 1
-    e.fit(X, y, sensitive_features=A)
+    hist = case.get("hist", "fit")
+    if hist == "partial_fit_reversed_classes":
+        out["classes"].add("predict_after_partial_fit_reversed_classes")
+        e.partial_fit(X, y, classes=list(reversed(labels)), sensitive_features=A)
+    elif hist == "fit_other_labels_then_fit":
+        out["classes"].add("predict_after_refit_other_labels")
+        other = {"binary": ["q", "r"] if not isinstance(labels[0], str) else [7, 9],
+                 "multi": ["p", "q", "r"] if not isinstance(labels[0], str) else [7, 8, 9]}[kind]
+        e.fit(X, np.array([other[i % len(other)] for i in range(len(X))]), sensitive_features=A)
+        out["transitions"] += 1
+        e.fit(X, y, sensitive_features=A)
+    else:
+        e.fit(X, y, sensitive_features=A)
     raw = np.asarray(e._raw_predict(X), float)
     pred = np.asarray(e.predict(X))
     out["transitions"] += 2
-    out["states"] = [jhash(["predict", case["enc"], i]) for i in range(len(X))]
-    ctx = "labels=%r raw outputs=%r" % (labels, raw.round(8).tolist())
+    out["states"] = [jhash(["predict", case["enc"], hist, i]) for i in range(len(X))]
+    ctx = "history=%s labels=%r raw outputs=%r" % (hist, labels, raw.round(8).tolist())
     if not np.allclose(raw[:, :k], X[:, :k].astype(np.float32), atol=1e-6):
         V.append(viol("C17:raw-predict", "pass-through predictor does not return its input (%s)" % ctx))
     if kind == "binary":
